@@ -53,6 +53,11 @@ def build(spec):
                                     variable="__scfg_control_var_7__", branch_value_table=tbl)
         elif kind == "tail":
             g[name] = SyntheticTail(name=name, _jump_targets=tuple(jt), backedges=tuple(be))
+        elif kind == "return":
+            # the common exit of an earlier closing (or of a graph that was written out and read back): closing
+            # again must still join it with whatever other exits there are
+            from numba_scfg.core.datastructures.basic_block import SyntheticReturn
+            g[name] = SyntheticReturn(name=name, _jump_targets=tuple(jt), backedges=tuple(be))
         else:
             g[name] = BasicBlock(name=name, _jump_targets=tuple(jt), backedges=tuple(be))
     sc = SCFG(g)
@@ -237,7 +242,8 @@ def cases_for(tier, seed):
         kinds = ["basic"] * len(combo)
         for variant in range(2):
             if variant == 1:
-                kinds = [rng.choice(["basic", "branch", "tail", "region", "region2", "loopregion"]) if jt else "basic" for jt in combo]
+                kinds = [rng.choice(["basic", "branch", "tail", "region", "region2", "loopregion"]) if jt
+                         else rng.choice(["basic", "return", "return"]) for jt in combo]
                 if all(k == "basic" for k in kinds):
                     continue
             spec = []
